@@ -128,6 +128,9 @@ type Sched struct {
 	Mismatch bool
 	noKeys   bool
 	panicErr   any
+	// SQLReadFaults: SELECT statements issued through the sqlitex shim may fail
+	// (an environment choice costing one deviation).
+	SQLReadFaults bool
 	panicStack string
 	engineErr  string
 }
